@@ -62,22 +62,29 @@ def member_xml(m, idx):
         out.append("        </param>")
     if m.get("brief") is not None:
         out.append("        <briefdescription><para>%s</para></briefdescription>" % xml_text(m["brief"]))
-    if m.get("detailed") is not None or m.get("param_docs") or m.get("returns") is not None:
+    if m.get("detailed") is not None or m.get("param_docs") or m.get("returns") is not None or m.get("sects_before"):
         out.append("        <detaileddescription>")
         if m.get("detailed") is not None:
             out.append("          <para>%s</para>" % xml_text(m["detailed"]))
-        if m.get("param_docs") or m.get("returns") is not None:
+        if m.get("param_docs") or m.get("returns") is not None or m.get("sects_before"):
             out.append("          <para>")
             if m.get("param_docs"):
                 out.append('            <parameterlist kind="param">')
                 for pn, pd in m["param_docs"]:
-                    out.append("              <parameteritem><parameternamelist><parametername>%s"
-                               "</parametername></parameternamelist><parameterdescription><para>%s"
-                               "</para></parameterdescription></parameteritem>" % (xml_text(pn), xml_text(pd)))
+                    # pn None: an item without <parametername>; pd None: a parameter documented without any
+                    # description text (no <para> inside <parameterdescription>) -- partial, well-formed trees
+                    nm = "<parametername>%s</parametername>" % xml_text(pn) if pn is not None else ""
+                    ds = "<para>%s</para>" % xml_text(pd) if pd is not None else ""
+                    out.append("              <parameteritem><parameternamelist>%s</parameternamelist>"
+                               "<parameterdescription>%s</parameterdescription></parameteritem>" % (nm, ds))
                 out.append("            </parameterlist>")
+            for kind, text in m.get("sects_before", ()):      # e.g. @see / @note sections ahead of @return
+                out.append('            <simplesect kind="%s"><para>%s</para></simplesect>' % (kind, xml_text(text)))
             if m.get("returns") is not None:
-                out.append('            <simplesect kind="return"><para>%s</para></simplesect>' %
-                           xml_text(m["returns"]))
+                rk = m.get("returns_kind", "return")
+                attr = ' kind="%s"' % rk if rk is not None else ""
+                body = "<para>%s</para>" % xml_text(m["returns"]) if m["returns"] != "\0nopara" else ""
+                out.append('            <simplesect%s>%s</simplesect>' % (attr, body))
             out.append("          </para>")
         out.append("        </detaileddescription>")
     out.append("      </memberdef>")
